@@ -12,19 +12,19 @@ func init() {
 	register(&Property{
 		ID:          "C08",
 		Run:         runC08,
-		Explanation: "Ownership of delivered slices: K1 in copy mode every payload is a fresh slices.Clone of the whole buffer / input slice with no other use (mode taken from the dominating test of NoCopy / Released != nil; a payload built without a mode test must be a clone); K2 under the no-copy assumption (edges contradicting it are pruned) every path from the output send to the end of the sending function passes the receive of the release signal (v1: or sets `unreleased` on a stop/cancel clause); K3 (v1) every ingest, reset and send of the buffer is dominated by a test `!unreleased` with no instruction that may set the flag in between; K4 the buffer value flows only to append/len/reslice/the output (no second reference); K5 unite never writes through a received input slice.",
+		Explanation: "Ownership of delivered slices: K1 in copy mode every payload is a fresh slices.Clone of the whole buffer / input slice with no other use (mode taken from the dominating test of NoCopy / Released != nil, also when the flag reaches a helper as an argument; a payload built without a mode test must be a clone); K2 under the no-copy assumption (edges contradicting it are pruned) after an output send the release is received (v1: or the buffer is frozen by unreleased = true in a stop clause) before the buffer is touched, anything else is sent, or the next receive - a typestate over events with callees inlined; K3 (v1) every ingest / reset / send of the buffer happens under a `!unreleased` test with no setter since; K4 the accumulation buffer has no second reference: each load of it flows only to append-into-itself, len/cap, reslice-into-itself, clone, or the output; K5 unite never writes through a received input slice (followed through the parameters it is passed to).",
 		NotDecided:  []string{"what the consumer does with the slice (contract)"},
 	})
 	register(&Property{
 		ID:          "C09",
 		Run:         runC09,
-		Explanation: "A slice is cut short only by timeout or end of input (structure): M1 the flush function is called only (a) under a condition implying len(B) >= JoinSize, (b) in the ticker clause under timeout-predicate == true, (c) as the deferred call of a loop function, (d,e unite) under len(item) >= JoinSize or len(item)+len(B) > JoinSize - any other call site is a premature flush; T4 the timeout predicate is time.Since(passAt) >= Timeout (or >; Now().Sub(passAt) accepted); T2 after every output send the reference time passAt is re-set before the sending path returns to the loop, and never between the decision and the send; M2 with interruptInterval == 0 the goroutine runs the loop function that has no ticker.",
+		Explanation: "A slice is cut short only by timeout or end of input (structure; typestate over events with callees inlined): M1 every send of the buffer happens under (a) a fact implying len(B) >= JoinSize, (b) the ticker clause with the timeout test answered true, (c) end of input (closed input observed, or the loop function running its defers), and for unite (d) an oversize input slice or (e) one that would not fit; M2 interruptInterval == 0 selects the loop without ticker (either branch polarity); T2 after a send passAt is re-set before the next receive; T4 every timeout test is time.Since(passAt) >= Timeout; T1 passAt is set by the constructor and otherwise only after a send, in the ticker clause or at the end; J6/J7 greedy batching as in C03.",
 		NotDecided:  []string{"the real-time clause beyond 'the comparison is against the full Timeout measured from the reset after the previous emission'"},
 	})
 	register(&Property{
 		ID:          "C10",
 		Run:         runC10,
-		Explanation: "Bounded waiting (necessary structure only): T1 passAt is written only by the constructor, by the flush/forward functions - never on the accept path (a per-element reset postpones the flush forever under a trickle); T3 in the ticker clause the timeout-predicate true edge reaches the flush on every path; T4 predicate form (as C09); T5 the ticker period is the interruptInterval field, which the constructor computes as timeout / (100 / inaccuracy) (integer divisions) from Opts.Timeout and the normalised Opts.TimeoutInaccuracy, with errors for inaccuracy 0, divider 0 and zero period; T6 the ticker clause and the input clause are clauses of the same select.",
+		Explanation: "Bounded waiting (necessary structure only; typestate over events with callees inlined): T1 passAt is set by the constructor (the first timeout counts from creation) and otherwise only after a send, in the ticker clause or at the end - never on a path that only accepted an element (a per-element reset postpones the flush forever under a steady trickle); T3 in the ticker clause the timeout is tested and after a true answer the buffer is sent (or is empty) before the next select; T4 every timeout test is exactly time.Since(passAt) >= Timeout; T5 the ticker period is interruptInterval = Timeout/(100/TimeoutInaccuracy) computed from the normalised options (helpers that compute a part of it are expanded), with zero inaccuracy / zero divider / zero period rejected, and a Reset re-arms with the same value; T6 the ticker clause and the input clause are in one blocking select, and every other receive from the input reachable from the timed loop also watches the ticker.",
 		NotDecided:  []string{"the bound Timeout*(1+1/floor(100/inaccuracy)) in real time"},
 	})
 }
